@@ -1,8 +1,9 @@
 (* C03/Checker.v — executable model of the traversal in
    src/frontend/typechecker/{check_decl.rs,check_stmt.rs,check_expr/*.rs} and symbols.rs for the
    MiniIncan fragment, arm by arm.  The record [fixes] switches on the small patches proposed
-   for each finding; the FAITHFUL model of the current code is [real] (all off): an arm the real
-   walker lacks (elif branches, match guards, argument/parameter comparison, ...) is lacking.
+   for each finding; the FAITHFUL model of the current code is [real] (fx_elif and fx_guard on
+   since the two repairs, everything else off): an arm the real walker lacks (argument/parameter
+   comparison, `?` outside a Result function, ...) is lacking in it.
    Events are (kind, span id).  [KGhost] events are NOT diagnostics: they mark the places where
    the checker's permissive handling of ResolvedType::Unknown is exercised (a binding whose
    inferred type is not fully determined, field access on an Unknown receiver, ...); programs
@@ -44,7 +45,11 @@ Record fixes := {
   fx_deps : bool    (* check the bodies of dependency modules too *)
 }.
 
-Definition real : fixes := Build_fixes false false false false false false false false.
+(* the current walker: elif branches and match guards are visited since the repairs
+   "type-check the conditions and bodies of elif branches" and "type-check match-arm guards" *)
+Definition real : fixes := Build_fixes true true false false false false false false.
+(* the walker before those two repairs (kept for the regression witnesses) *)
+Definition unrepaired : fixes := Build_fixes false false false false false false false false.
 Definition fixed : fixes := Build_fixes true true true true true true true true.
 
 (* ---- types ---- *)
